@@ -1,6 +1,7 @@
 import Mrpro.Model.Proto
 import Mrpro.Model.OpsND
 import Mrpro.Model.Fourier
+import Mrpro.Model.AlgebraExec
 open Lean M M.Proto
 
 def getTrajComp (j : Json) (k : String) : Except String TrajComp := do
@@ -50,6 +51,29 @@ def linopF (j : Json) (x : Tensor CFloat) : Except String (Except ErrKind (Tenso
           let s ← cartSampFwd cs ⟨[b, c, prodL (k.shape.drop 2)], k.get⟩
           pure ⟨[b, c] ++ tshape.drop 1, s.get⟩)
   | _ => throw s!"unknown linopF {name}"
+
+def parseScal (j : Json) : Except String (Scal CRat) := do
+  let k ← getStr j "k"
+  match k with
+  | "py" => match parseCRat (← getStr j "v") with | some c => pure (.py c) | none => throw "scal"
+  | "t1" => match parseCRat (← getStr j "v") with | some c => pure (.t1 c) | none => throw "scal"
+  | "tn" => let d := (← getCRats j "v").toArray; pure (.tn (fun i => d.getD i 0))
+  | _ => throw "scal kind"
+
+partial def parseExpr (j : Json) : Except String (Expr CRat) := do
+  let t ← getStr j "t"
+  match t with
+  | "leaf" => pure (.leaf (← getNat j "i"))
+  | "ident" => pure .ident
+  | "zero" => pure .zero
+  | "comp" => pure (.comp (← parseExpr (← j.getObjVal? "a")) (← parseExpr (← j.getObjVal? "b")))
+  | "add" => pure (.add (← parseExpr (← j.getObjVal? "a")) (← parseExpr (← j.getObjVal? "b")))
+  | "addT" => pure (.addT (← parseExpr (← j.getObjVal? "a")) (← parseScal (← j.getObjVal? "s")))
+  | "rmul" => pure (.rmul (← parseScal (← j.getObjVal? "s")) (← parseExpr (← j.getObjVal? "a")))
+  | "mul" => pure (.mul (← parseExpr (← j.getObjVal? "a")) (← parseScal (← j.getObjVal? "s")))
+  | "adj" => pure (.adj (← parseExpr (← j.getObjVal? "a")))
+  | "gram" => pure (.gram (← parseExpr (← j.getObjVal? "a")))
+  | _ => throw s!"expr tag {t}"
 
 /-- one structural linear operator (forward or adjoint code path) on exact complex data -/
 def linop (j : Json) (x : Tensor CRat) : Except String (Except ErrKind (Tensor CRat)) := do
@@ -114,6 +138,22 @@ def handle (j : Json) : Except String Json := do
       match ← linopF j (Tensor.ofList shape x) with
       | .ok t => pure (tensorFJson t.memo)
       | .error e => pure (errJson e)
+  | "expr" =>
+      let n ← getNat j "n"
+      let leaves := (← getCRatss j "leaves").toArray.map (·.toArray)
+      let e ← parseExpr (← j.getObjVal? "e")
+      let x := (← getCRats j "x").toArray
+      let adj ← getBool j "adj"
+      let A := fun (l : Nat) (g : Nat) => (leaves.getD l #[]).getD g 0
+      let Lf := fun l (v : Array CRat) => matLeafFwd n (A l) v
+      let La := fun l (v : Array CRat) => matLeafAdj n (A l) v
+      let o := build e
+      let r1 := toFn (if adj then Obj.adjA n Lf La o x else Obj.fwdA n Lf La o x)
+      let r2 := toFn (if adj then denHA n Lf La e x else denA n Lf La e x)
+      let which := (getStr j "which").toOption.getD "both"
+      if which == "build" then pure (Json.mkObj [("build", cratsJson ((List.range n).map r1))])
+      else if which == "den" then pure (Json.mkObj [("den", cratsJson ((List.range n).map r2))])
+      else pure (Json.mkObj [("build", cratsJson ((List.range n).map r1)), ("den", cratsJson ((List.range n).map r2))])
   | "norm_dims" =>
       let ndim ← getNat j "ndim"; let dims ← getInts j "dims"
       pure (match dims.mapM (normIndex ndim) with
